@@ -68,6 +68,7 @@ OutF(s, op) ==
     CASE op.n = "new"       -> { O([b |-> <<>>, c |-> CmpName(op.a[1])], Unit) }
       [] op.n = "fromslice" -> { O([b |-> Asc(SelectSeq(Tl(op.a), LAMBDA x : x # -7)), c |-> CmpName(op.a[1])], Unit) }
       [] op.n = "push"      -> { O([s EXCEPT !.b = Ins(@, op.a[1])], Unit) }
+      [] op.n = "pushn"     -> { O([s EXCEPT !.b = InsAll(@, op.a)], Unit) }      \* one variadic Push
       [] op.n = "pop"       -> PopOut(s)
       [] op.n = "delete"    -> DeleteOut(s, op.a[1])
       [] op.n = "clear"     -> { O([s EXCEPT !.b = <<>>], Unit) }
